@@ -84,7 +84,17 @@ def split_sizes(rng, n, kind=None, kmax=9):
     """An ordered composition of n into non-empty parts."""
     if n == 1:
         return [1]
-    kind = kind if kind is not None else ['ones', 'head1', 'tail1', 'random', 'random', 'halves'][int(rng.integers(6))]
+    kind = kind if kind is not None else ['ones', 'head1', 'tail1', 'random', 'random', 'halves', 'special'][int(rng.integers(7))]
+    if kind == 'special':
+        # batches of a 'special' length (powers of two and neighbours: block sizes of chunked loops), remainder last
+        ok = [v for v in (8, 16, 32, 64, 128, 256, 512, 1024, 255, 257, 100) if v < n]
+        if ok:
+            b = int(ok[int(rng.integers(len(ok)))])
+            out = [b] * min(n // b, int(rng.integers(1, 4)))
+            if n - sum(out) > 0:
+                out.append(n - sum(out))
+            return out if len(out) <= kmax + 1 else [b, n - b]
+        kind = 'random'
     if kind == 'ones' and n <= 40:
         return [1] * n
     if kind == 'head1':
